@@ -142,8 +142,10 @@ PROPS["C11"] = dict(
           "only); both glyph settings; non-trivial = distinct term with indices in 1..15"),
     trusted_base=PARSE_TB,
     assumptions=["the Gallina mirrors of Debug and of the parser are faithful (differential testing only)", OUTSIDE],
-    explanation=("PARTIAL proof: Debug = reference rendering is a theorem for all terms with indices 1..15 and both glyphs; "
-                 "the round trip is decided by running implementation and model on the printed strings."))
+    explanation=("Theorems for all terms with indices 1..15 and both glyphs: Debug = reference rendering, and the model of "
+                 "parse applied to the model's Debug output returns exactly the term (lexer inverts renderer, recursive "
+                 "descent inverts printer, transferred to the model by the C09 equivalence). The implementation's round "
+                 "trip and format are checked on exhaustive and random terms using all 15 digits, in both feature builds."))
 
 TIE_A = ("tie (A): coq/theories/Gen/Terms.v is REGENERATED on every run from the compiled crate by "
          "harness/src/bin/dump_terms.rs (calls every exported term-valued function; own 10-line serialiser; the "
